@@ -14,7 +14,6 @@ under every sequence of connect outcomes on the fake reactor.
 No socket is opened: ``available_tcp_port`` runs on FakeReactor.listenTCP.
 """
 import itertools
-import re
 
 from twisted.internet import protocol
 from twisted.internet.interfaces import IStreamClientEndpoint
@@ -32,8 +31,8 @@ TECHNIQUE = ("runtime monitoring: control-wire recorder + FakeTor config store +
              "oracle; complete enumeration of SocksPort configurations x request x API and of "
              "connect-outcome sequences")
 LEVEL_TEXT = ("Held on the executions observed: every cell of an enumerated table (existing SocksPort "
-              "configuration x requested port(s) x public entry point, incl. two-call histories; ~16 000 cells "
-              "quick, ~580 000 thorough) and every connect-outcome sequence of length 2 (quick) / 3 (thorough) "
+              "configuration x requested port(s) x public entry point, incl. two-call histories; ~39 000 cells "
+              "quick, ~1.5 million thorough) and every connect-outcome sequence of length 2 (quick) / 3 (thorough) "
               "over 27 outcome kinds (incl. SOCKS-level failures and slow answers under virtual time after a successful TCP connect) for the 9050/9150 fallback. Enumeration of the listed forms, not a proof "
               "for other SocksPort spellings; at most one clause is reported per call (root-cause order).")
 LEVEL_NOTE = ("Trusted: FakeTor GETCONF/SETCONF semantics for the SocksPort family (vf.faketor.sockstor), "
@@ -68,6 +67,11 @@ ASSUMPTIONS = [
     "judged at quiescence: each SETCONF against what Tor had when it processed it, endpoints against Tor's final "
     "configuration; a SETCONF that re-lists exactly what Tor has is accepted as a no-op; calls that fail although no "
     "existing entry could serve them are counted only",
+    "the white space between the address and the option words of an entry may be TAB(s) or several blanks; FakeTor "
+    "reports the line as written and it must be recognised and re-listed like any other",
+    "staged edits: the application may have edited the TorConfig object (SocksPort or another option, also with a value "
+    "Tor would refuse) without save() when a port Tor already has is asked for: nothing may be written then; when a "
+    "later addition flushes that staged option too, the staged option's own key/value is not judged",
     "SocksPort addresses may be host names (localhost, an FQDN): an endpoint connecting to that name (for localhost also "
     "to a loopback literal) matches; a request for the same port on a literal address is then counted as ambiguous",
     "another controller's change of SocksPort (FakeTor store + CONF_CHANGED) is placed inside the in-flight window of a "
@@ -104,7 +108,7 @@ FLOORS = {
               "endpoint_targets_compared": 500, "fallback_sequences_judged": 35,
               "fallback_attempts_checked": 60, "fallback_outcomes_compared": 30,
               "fallback_socks_failures_compared": 80, "fallback_slow_successes_judged": 40, "reach:txtorcon.controller:Tor._default_socks_endpoint": 400,
-              "overlap_histories_judged": 200, "overlap_setconfs_judged": 250, "refused_setconfs_seen": 150, "window_histories_steps_judged": 120,
+              "overlap_histories_judged": 200, "overlap_setconfs_judged": 250, "refused_setconfs_seen": 150, "window_histories_steps_judged": 120, "staged_edit_steps_judged": 150,
               "reach:txtorcon.endpoints:_create_socks_endpoint": 400,
               "reach:txtorcon.endpoints:TorClientEndpoint.connect": 90,
               "reach:txtorcon.torconfig:TorConfig.create_socks_endpoint": 150,
@@ -119,25 +123,6 @@ FLOORS = {
 
 LOCAL_HOSTS = ("127.0.0.1", "localhost", "::1")
 
-_HOSTNAME = re.compile(r"^(?=.{1,253}$)[A-Za-z]([A-Za-z0-9-]{0,62})(\.[A-Za-z0-9]([A-Za-z0-9-]{0,62}))*$")
-_parse_first_ip_only = sockstor.parse_first
-
-
-def _parse_first_with_names(first):
-    """tor(1): SocksPort [address:]port -- the address may also be a host NAME (Tor resolves it);
-    the reference reader of vf.faketor.sockstor only knows literals, so it is extended here"""
-    t = _parse_first_ip_only(first)
-    if t is None and ":" in first and not first.startswith(("unix:", "[")):
-        host, _, port = first.rpartition(":")
-        if _HOSTNAME.match(host) and not re.match(r"^[0-9.]+$", host):
-            if port == "auto":
-                return ("auto",)
-            if port.isdigit() and int(port) <= 65535:
-                return ("tcp", host, int(port))
-    return t
-
-
-sockstor.parse_first = _parse_first_with_names        # also used by SocksStore's 513 validator
 FALLBACK_PORTS = (9050, 9150)
 
 # ---------------------------------------------------------------------------
@@ -196,8 +181,7 @@ def classify_request(req, infos):
                          and i["target"][2] == rt[2] and rt[2] != 0]
             if any(i["target"][1] in WILDCARD_HOSTS for i in same_port) or rt[1] in WILDCARD_HOSTS:
                 return "ambiguous", ri        # a wildcard listener also serves the other address
-            if any(_HOSTNAME.match(i["target"][1]) and not re.match(r"^[0-9.]+$", i["target"][1])
-                   for i in same_port) or (_HOSTNAME.match(str(rt[1])) and not re.match(r"^[0-9.]+$", str(rt[1]))):
+            if any(sockstor.is_host_name(i["target"][1]) for i in same_port) or sockstor.is_host_name(rt[1]):
                 return "ambiguous", ri        # a name may resolve to the other address
             if same_port:
                 return "absent-same-port", ri  # another address, same port number: a different listener
@@ -308,6 +292,24 @@ def _run_prelude(pre, cfg, aud, link, reactor):
     return "save-in-flight"
 
 
+def _stage_edit(st, cfg):
+    """the application edits the TorConfig object and does NOT save(): that edit is staged, Tor knows nothing"""
+    try:
+        opt, how, value = st["opt"], st["how"], st.get("value")
+        if how == "assign":
+            setattr(cfg, opt, value)
+        elif how == "append":
+            getattr(cfg, opt).append(value)
+        elif how == "remove-last":
+            lst = getattr(cfg, opt)
+            if len(lst) < 2:
+                return "not-applicable"
+            lst.pop()
+        return "staged" if cfg.needs_save() else "nothing-staged"
+    except Exception as e:     # noqa
+        return "edit-raised:%r" % (e,)
+
+
 OTHER_X, OTHER_Y = "9777 IsolateDestAddr", "unix:/run/tor/other.sock"
 
 
@@ -412,6 +414,9 @@ def run_steps(case):
     torobj = None
     if api in ("tor_default", "stream_via", "dns_resolve", "dns_resolve_ptr", "web_agent"):
         torobj = tctl.Tor(reactor, proto)
+    staged_note = None
+    if case.get("staged") and cfg is not None:
+        staged_note = _stage_edit(case["staged"], cfg)
     prelude_note = None
     if api.startswith("torcfg_"):
         # a Tor object that owns a loaded TorConfig (what connect()/launch()/get_config() give)
@@ -526,6 +531,7 @@ def run_steps(case):
         step["replies"] = [(l, c) for (l, c, _p) in tor.replies[nrep0:] if l in step["lines"]]
         step["prelude_note"] = prelude_note
         step["window_note"] = window_note
+        step["staged_note"] = staged_note
         step["E_after"] = tor.conf.socks_entries()
         step["others_after"] = tor.conf.snapshot_others()
         step["listened"] = [(p.number, p.interface, p.open) for p in reactor.listening[l0:]]
@@ -565,6 +571,9 @@ def judge_step(case, step, nstep, rec, V):
         return False
     okind = outcome[0] if outcome[0] not in ("failed", "raised") else outcome[0] + ":" + outcome[1]
     rec.seen("outcome_kinds", "%s:%s" % (api, okind))
+    if step.get("staged_note"):
+        rec.count("staged_edit_steps_judged")
+        rec.seen("staged_notes", step["staged_note"])
     if step.get("window_note"):
         rec.count("window_histories_steps_judged")
         rec.seen("window_notes", step["window_note"])
@@ -594,6 +603,11 @@ def judge_step(case, step, nstep, rec, V):
         if fam == "torobj":
             k = (case.get("prelude") or {}).get("kind", "none")
             return None if k == "none" else "config-view-diverged:" + k
+        if fam == "torconfig" and case.get("staged"):
+            # the application had edited the TorConfig object without save() when the call was made
+            so = case["staged"]["opt"]
+            return "staged-unsaved-edit:" + ("socksport" if so == "SocksPort" else
+                                             ("other-option-tor-rejects" if case["staged"].get("rejected") else "other-option"))
         if fam == "torconfig" and case.get("window"):
             # an earlier create_socks_endpoint() was refused after a CONF_CHANGED had arrived while it was in flight
             return {"in-flight": "after-refusal-with-conf-changed-in-flight",
@@ -614,14 +628,19 @@ def judge_step(case, step, nstep, rec, V):
         return None
 
     def is_name(t):
-        return t is not None and t[0] == "tcp" and bool(_HOSTNAME.match(str(t[1]))) and \
-            not re.match(r"^[0-9.]+$", str(t[1]))
+        return t is not None and t[0] == "tcp" and sockstor.is_host_name(t[1])
+
+    def odd_ws(line):
+        return "\t" in line or "  " in line
 
     def general(suffix):
         """class when nothing structural about the history explains it"""
         if (rclass == "present" and is_name(ri["target"])) or \
                 (rclass == "none" and usable and all(is_name(i["target"]) for i in usable)):
             return "host-name-entry"
+        relevant = [i for i in usable if i["first"] == ri["first"]] if rclass == "present" else usable
+        if relevant and all(odd_ws(i["line"]) for i in relevant):
+            return "options-after-tab-or-several-blanks"
         return "general/" + suffix
 
     found = []
@@ -648,6 +667,9 @@ def judge_step(case, step, nstep, rec, V):
             report("setconf-not-parseable", history_cause() or "general", {"line": rest, "error": str(e)})
             continue
         foreign = [k for (k, _v) in items if k.lower() not in ("socksport", "__socksport")]
+        if case.get("staged") and mode != "use":
+            # an addition's save() also flushes what the application staged itself: its own business
+            foreign = [k for k in foreign if k.lower() != case["staged"]["opt"].lower()]
         if foreign:
             report("setconf-touches-other-option", history_cause() or "general", {"keys": foreign, "line": rest})
         got = [v for (k, v) in items if k.lower() in ("socksport", "__socksport")]
@@ -673,11 +695,13 @@ def judge_step(case, step, nstep, rec, V):
             how = ["zero" if i["kind"] == "zero" else "quoted" if i["first"].startswith('unix:"') else
                    ("opts" if i["flags"] and i["first"] in extra else
                     ("auto" if i["target"] == ("auto",) else "other")) for i in lost]
-            if lost and all(h == "zero" for h in how):
-                c = "existing-port-0-entry"
-            elif lost and all(h == "auto" for h in how) and (fam != "torconfig" or len(infos) == 1):
+            if lost and all(h == "auto" for h in how) and (fam != "torconfig" or len(infos) == 1):
                 c = "existing-auto-entry"
-            elif fam in ("torconfig", "torobj") and history_cause():
+            elif fam == "torconfig" and history_cause():
+                c = history_cause()
+            elif lost and all(h == "zero" for h in how):
+                c = "existing-port-0-entry"
+            elif fam == "torobj" and history_cause():
                 c = history_cause()
             elif lost and all(h == "opts" for h in how):
                 c = "existing-entry-with-option-words"
@@ -702,7 +726,11 @@ def judge_step(case, step, nstep, rec, V):
                     "line": w + " " + rest})
     # ---- (2) nothing else in Tor's configuration changed; old entries survive
     rec.count("store_snapshots_compared")
-    if step["others_after"] != step["others"]:
+    oa, ob = dict(step["others_after"]), dict(step["others"])
+    if case.get("staged") and mode != "use":
+        oa.pop(case["staged"]["opt"], None)
+        ob.pop(case["staged"]["opt"], None)
+    if oa != ob:
         report("other-config-modified", history_cause() or "general",
                {"before": step["others"], "after": step["others_after"]})
     if accepted:
@@ -1046,15 +1074,24 @@ EXTRA_QUICK = [["127.0.0.1:0"], ["0", "127.0.0.1:0"], ["127.0.0.1:0", "9050 Isol
                ["[::1]:0", "0"], ["0", "[::1]:9054 IsolateDestAddr"], ["auto", "127.0.0.1:0"],
                ["tor.example.net:9057"], ["tor.example.net:9057 IsolateDestAddr"], ["0", "tor.example.net:9057"],
                ["tor.example.net:9057 IsolateSOCKSAuth", "9150"], ["localhost:9056 IsolateDestAddr", "0"],
-               ["[::1]:9054", "tor.example.net:9057 IsolateDestAddr"]]
+               ["[::1]:9054", "tor.example.net:9057 IsolateDestAddr"],
+               # options after TAB(s) / several blanks (GETCONF echoes the line as written)
+               ["9050\tIsolateDestAddr"], ["9050  IsolateDestAddr"], ["9050 \t IsolateSOCKSAuth\tNoIPv6Traffic"],
+               ["unix:/run/tor/socks\tWorldWritable"], ["127.0.0.1:9051\tIsolateDestAddr", "9150"],
+               ["9150", "192.168.7.2:9052\t\tIsolateDestAddr"], ["0", "9050\tIsolateDestAddr"],
+               ["localhost:9056\tIsolateDestAddr"], ["[::1]:9054\tIsolateDestAddr", "unix:/run/tor/socks  GroupWritable"],
+               ["9050\tIsolateDestAddr", "9150  IsolateSOCKSAuth", "unix:/run/tor/socks \t WorldWritable"]]
 
 
-def with_opt(first, k):
+SEPARATORS = [" ", "\t", "  ", " \t ", "\t\t"]        # Tor splits a port line on any white space
+
+
+def with_opt(first, k, sep=" "):
     pool = OPTS_UNIX if first.startswith("unix:") else OPTS_TCP
     if first in ("0", "127.0.0.1:0", "[::1]:0"):
         return first
     o = pool[k % len(pool)]
-    return (first + " " + o) if o else first
+    return (first + sep + o.replace(" ", sep)) if o else first
 
 
 def configs(tier, rnd):
@@ -1094,10 +1131,12 @@ def configs(tier, rnd):
         out.append({"socks": ["9150 IPv6Traffic PreferIPv6 KeepAliveIsolateSOCKSAuth", "9155"], "under": None})
     else:
         for t in itertools.permutations(firsts, 3):
-            out.append({"socks": [with_opt(f, rnd.randrange(5)) for f in t], "under": None})
+            out.append({"socks": [with_opt(f, rnd.randrange(5), rnd.choice(SEPARATORS + [" "] * 8)) for f in t],
+                        "under": None})
         for _ in range(4000):
             q = rnd.sample(firsts, 4)
-            out.append({"socks": [with_opt(f, rnd.randrange(5)) for f in q], "under": None})
+            out.append({"socks": [with_opt(f, rnd.randrange(5), rnd.choice(SEPARATORS + [" "] * 8)) for f in q],
+                        "under": None})
         out.append({"socks": ["9150 IPv6Traffic PreferIPv6 KeepAliveIsolateSOCKSAuth", "9155"], "under": None})
     return out
 
@@ -1225,6 +1264,39 @@ def refusal_cells(cfg, tier, idx, base, free):
     return out
 
 
+STAGED = [
+    {"opt": "SafeSocks", "how": "assign", "value": 1},
+    {"opt": "Nickname", "how": "assign", "value": "relay1"},
+    {"opt": "Log", "how": "append", "value": "info file /tmp/x.log"},
+    {"opt": "DNSPort", "how": "assign", "value": ["5353 BogusFlag"], "rejected": True},
+    {"opt": "TransPort", "how": "append", "value": "9041 NotAnOption", "rejected": True},
+    {"opt": "SocksPort", "how": "append", "value": "9777"},
+    {"opt": "SocksPort", "how": "append", "value": "9778 BogusFlag", "rejected": True},
+    {"opt": "SocksPort", "how": "remove-last"},
+]
+
+
+def staged_cells(cfg, tier, idx, base, free):
+    """the TorConfig carries an unsaved edit when create_socks_endpoint()/socks_endpoint() is asked for a port
+    Tor already has: nothing may be written; later additions still re-list every existing entry"""
+    if cfg["under"] or not cfg["socks"]:
+        return []
+    infos = [entry_info(l) for l in cfg["socks"]]
+    present = [i["first"] for i in infos if i["kind"] == "usable" and " " not in i["first"]]
+    if not present or (len(infos) >= 2 and infos[-1]["first"] == present[0]):
+        return []
+    P = present[0]
+    combos = []
+    for st in STAGED:
+        follows = [("cfg_create", [P]), ("cfg_create", [P, P]), ("cfg_sync", [P]), ("cfg_create", [None])]
+        if st["opt"] != "SocksPort":
+            follows += [("cfg_create", [P, "9998"]), ("cfg_create", ["9998", P])]
+        combos += [(st, f) for f in follows]
+    if tier == "quick" or idx % 4:
+        combos = [combos[(idx * 3 + k * 13) % len(combos)] for k in range(5)]
+    return [dict(base, api=api, steps=steps, free=free, staged=st) for (st, (api, steps)) in combos]
+
+
 def window_cells(cfg, tier, idx, base, free):
     """refused add with a CONF_CHANGED (other controller) in the in-flight window, then further calls"""
     if cfg["under"]:
@@ -1271,6 +1343,7 @@ def cells_for(cfg, tier, idx, cidx=None):
                             prelude={"kind": kind, "edit": edit, "value": value}))
     out.extend(refusal_cells(cfg, tier, idx if cidx is None else cidx, base, free))
     out.extend(window_cells(cfg, tier, idx if cidx is None else cidx, base, free))
+    out.extend(staged_cells(cfg, tier, idx if cidx is None else cidx, base, free))
     # (selection by the configuration's own index, not the seed-shifted one: same shapes for every seed)
     out.extend(overlap_cells(cfg, tier, idx if cidx is None else cidx, base, free))
     # histories of two calls
